@@ -13,7 +13,7 @@ import (
 // The line sweep: the random mutants of TestC02_mutants reach "this one metadata line is missing"
 // only by luck (extractor x fixture x member x op x line), yet that is the commonest malformed
 // input there is. This leg enumerates it: for every text fixture, and every metadata member of
-// every zip fixture, each line is deleted once and duplicated once, and the
+// every zip fixture, each line is deleted once, duplicated once and given other line terminators, and the whole document is converted to CRLF, converted twice (CR CR LF), given a BOM and stripped of its final newline, and the
 // result is decided by the same oracle as any other mutant.
 
 // sweepLines picks the line indices to visit: all of them up to limit, else the first half of
@@ -126,13 +126,47 @@ func TestC02_linesweep(t *testing.T) {
 			}
 			for _, tg := range sweepTargets(clamp(b)) {
 				targets++
+				// whole-document format changes
+				for _, ms := range [][]Mut{{{Op: "crlf"}}, {{Op: "crcrlf"}}, {{Op: "crlf"}, {Op: "crcrlf"}}, {{Op: "bom"}}, {{Op: "dropnl"}}, {{Op: "crlf"}, {Op: "bom"}}} {
+					idx++
+					if idx%shards != shard {
+						continue
+					}
+					c := c02Case{Leg: "linesweep", Extractor: e.Name, Path: f.Paths[0], Base: f.Rel}
+					for _, m := range ms {
+						c.Muts = append(c.Muts, tg.wrap(m))
+					}
+					o, err := ev.Safe(propC02)(c)
+					o.Classes = append(o.Classes, "linesweep", "linesweep_format")
+					ran++
+					if !en.Report(c, o, err) {
+						completed = true
+						return
+					}
+				}
+				var muts []Mut
 				for _, ln := range sweepLines(tg.lines, limit) {
 					for _, op := range ops {
+						muts = append(muts, Mut{Op: op, A: ln})
+					}
+				}
+				// line terminators: every variant on the first lines, one rotating variant on the others
+				for k, ln := range sweepLines(tg.lines, limit) {
+					if ln < 6 {
+						for b := range lineEnds {
+							muts = append(muts, Mut{Op: "eol", A: ln, B: b})
+						}
+					} else {
+						muts = append(muts, Mut{Op: "eol", A: ln, B: k})
+					}
+				}
+				for _, m := range muts {
+					{
 						idx++
 						if idx%shards != shard {
 							continue
 						}
-						c := c02Case{Leg: "linesweep", Extractor: e.Name, Path: f.Paths[0], Base: f.Rel, Muts: []Mut{tg.wrap(Mut{Op: op, A: ln})}}
+						c := c02Case{Leg: "linesweep", Extractor: e.Name, Path: f.Paths[0], Base: f.Rel, Muts: []Mut{tg.wrap(m)}}
 						// when Extract fails on the result, a real scan with two healthy neighbours
 						// decides containment, under a scan option set that rotates with the case
 						c.Contain = true
